@@ -467,22 +467,27 @@ public:
       _transport->onClose(
         [this](SessionId sid, const TransportErrorInfo &)
         {
-          std::lock_guard<std::mutex> lock(_sessionMutex);
-          auto it = _sessionInfo.find(sid);
-          if (it != _sessionInfo.end())
           {
-            iora::core::Logger::info(
-              "HttpServer: HTTP connection closed from " + it->second.peerAddress + ":" +
-              std::to_string(it->second.peerPort) + " (session " + std::to_string(sid) + ")");
-            _sessionInfo.erase(it);
-            _upgradedSessions.erase(sid);
+            std::lock_guard<std::mutex> lock(_sessionMutex);
+            auto it = _sessionInfo.find(sid);
+            if (it != _sessionInfo.end())
+            {
+              iora::core::Logger::info(
+                "HttpServer: HTTP connection closed from " + it->second.peerAddress + ":" +
+                std::to_string(it->second.peerPort) + " (session " + std::to_string(sid) + ")");
+              _sessionInfo.erase(it);
+              _upgradedSessions.erase(sid);
+            }
+            else
+            {
+              _upgradedSessions.erase(sid);
+              iora::core::Logger::debug("HttpServer: Connection closed (session " +
+                                        std::to_string(sid) + ")");
+            }
           }
-          else
-          {
-            _upgradedSessions.erase(sid);
-            iora::core::Logger::debug("HttpServer: Connection closed (session " +
-                                      std::to_string(sid) + ")");
-          }
+          // No lock held: let a protocol layered on the upgraded session (e.g.
+          // WebSocketServer) release its per-session state.
+          onSessionClosed(sid);
         });
 
       // Error callback
@@ -613,6 +618,14 @@ protected:
                               std::size_t len)
   {
     (void)sid; (void)data; (void)len;
+  }
+
+  /// \brief Called (on the I/O thread, no HttpServer lock held) after the TCP
+  /// connection of a session is gone, however it ended. Subclasses that keep
+  /// per-session state for upgraded sessions release it here.
+  virtual void onSessionClosed(SessionId sid)
+  {
+    (void)sid;
   }
 
   /// \brief Send raw bytes to a session (for WebSocket frame sending).
